@@ -851,7 +851,57 @@ _TREES_TXT = ("trees: every rooted binary shape on 2-5 tips, the trifurcating-ro
               "(a,b,c,d) ((a,b,c),d) (a,b,c,(d,e)); lengths from {1e-3,0.05,0.1,0.2,0.3,0.4,0.7,1.5,2.5} (+0); "
               "alignments of 3-5 motif blocks (seeded; states, N R Y - ?, X B Z, NNN --- ACN, one repeated column)")
 
+# ================================================================================================ many site patterns
+def gen_many_patterns(tier, seed):
+    """alignments with more distinct columns below one internal node than fit in 16 bits"""
+    yield ["F81", "((t1:0.1,t2:0.2,t3:0.1,t4:0.3,t5:0.1,t6:0.2,t7:0.1,t8:0.2,t9:0.3)X:0.1,t10:0.2)", 70000, 7]
+    yield ["HKY85", "(((t1:0.1,t2:0.2,t3:0.1,t4:0.3,t5:0.1)Y:0.1,(t6:0.2,t7:0.1,t8:0.2,t9:0.3)Z:0.2)X:0.1,t10:0.2)", 66000, 11]
+    if tier == "thorough":
+        yield ["HKY85", "((t1:0.1,t2:0.2,t3:0.1,t4:0.3,t5:0.1,t6:0.2,t7:0.1,t8:0.2,t9:0.3)X:0.1,t10:0.2)", 140000, 3]
+
+
+def contract_many_patterns(case):
+    """lnL is unchanged by reversing / rotating the columns, and doubles when the alignment is repeated"""
+    from cogent3 import get_model, make_aligned_seqs, make_tree
+    model, nw, ncol, stride = case
+    names = [f"t{i}" for i in range(1, 11)]
+    # distinct columns: the base-4 digits of k * stride' for a stride coprime to 4**10
+    step = 2 * stride + 1
+    cols = []
+    for k in range(ncol):
+        v = (k * step) % (4 ** 10)
+        cols.append("".join("ACGT"[(v >> (2 * j)) & 3] for j in range(10)))
+    if len(set(cols)) != ncol:
+        return ("skip",)
+
+    def lnl(columns):
+        rows = {n: "".join(c[j] for c in columns) for j, n in enumerate(names)}
+        lf = get_model(model).make_likelihood_function(make_tree(nw + ";"))
+        lf.set_motif_probs({"A": 0.1, "C": 0.2, "G": 0.3, "T": 0.4})
+        lf.set_alignment(make_aligned_seqs(rows, moltype="dna"))
+        return float(lf.lnL)
+    try:
+        base = lnl(cols)
+        rev = lnl(cols[::-1])
+        rot = lnl(cols[ncol // 3:] + cols[:ncol // 3])
+    except Exception as e:
+        return ("fail", f"many-patterns/{model}/raises {type(e).__name__}", f"{case}: {type(e).__name__}: {str(e)[:200]}")
+    for what, v in (("reversed", rev), ("rotated", rot)):
+        if abs(v - base) > 1e-9 * abs(base):
+            return ("fail", f"many-patterns/{model}/lnL-depends-on-column-order", f"{case}: lnL {base!r}, columns {what}: {v!r}")
+    return ("ok", True)
+
+
 BOUNDED = {
+    "many_patterns": {
+        "gen": gen_many_patterns, "contract": contract_many_patterns,
+        "functions": ["evolve.likelihood_tree._LikelihoodTreeEdge.__init__ (pattern indices of internal nodes)",
+                      "make_likelihood_tree_leaf", "LikelihoodFunction.get_log_likelihood"],
+        "bound": "10 taxa, 66 000 - 70 000 (thorough 140 000) pairwise distinct columns -- more site patterns below one "
+                 "internal node than 2**16 -- F81 / HKY85, two tree shapes",
+        "rule": "lnL of the alignment == lnL with the columns reversed == lnL with the columns rotated (relative 1e-9)",
+        "shards": 2,
+    },
     "columns": {
         "gen": gen_columns, "contract": contract_steps,
         "functions": _FUN + ["likelihood_tree._indexed", "likelihood_tree.make_likelihood_tree_leaf",
